@@ -20,6 +20,14 @@ CHECKS = {
              "decides, over the whole box |x|<=1e3, agreement with the defining formula, agreement of the alternative implementations and "
              "inverse-after-forward = identity (tolerance 1e-8). Bounded (configurations, box), not a proof.",
         design_ref="DESIGN.md 3/C02"),
+    "C01": dict(
+        technique="symbolic execution of the real verdict methods with symbolic parameters AND symbolic tolerance; eigen-solvers replaced by a spectral parametrisation; z3 (QF_LRA/NRA) verdict per path",
+        category="other",
+        text="Equality verdicts (trace / identity-sum / TP / sum-TP, both is_tp branches incl. unnormalised and non-identity-first bases): z3 decides verdict <=> definition for all "
+             "parameters in |x|<=10 and all atol in [1e-13,1e-2] (thin 1e-14 band around the threshold excluded). Inequality verdicts: matrices are built from symbolic eigenvalues and "
+             "exact unitary frames, the real Hermiticity test / eigenvalue filtering / >=0 test run on them, claim verdict <=> min eigenvalue >= -atol; is_physical with two independent "
+             "tolerances, constructors (raise <=> not physical), monotonicity in atol, origin/zero objects. Bounded by configurations, frame library and boxes.",
+        design_ref="DESIGN.md 3/C01"),
     "C03": dict(
         technique="symbolic execution (symbolic reals + symbolic integer indices) of the real var/object conversions and index maps + z3 (QF_LRA/LIA) verdict per path",
         category="other",
@@ -27,6 +35,30 @@ CHECKS = {
              "for ALL parameter values in the box; index maps are decided for ALL indices as symbolic integers (inverse, range, 'points at the entry holding "
              "the variable' via ITE-select, calc_gradient one-hot); SetQOperations total/local index maps and set_qoperations_from_var_total on mixed sets. Bounded by the configuration list.",
         design_ref="DESIGN.md 3/C03"),
+    "C04": dict(
+        technique="symbolic execution of the real projection methods (spectral parametrisation for eigh, uninterpreted eigh for obj/var congruence) + z3 (QF_LRA/NRA) verdict per path",
+        category="other",
+        text="Equality projections (affine code): for all x in |x|<=1e3 the result satisfies the mathematical constraint exactly and x-P(x) is orthogonal to the constraint's null space "
+             "(=> nearest point), idempotent, fixes feasible points, operand and argument arrays untouched, object-level == variable-level under both flags, closures == methods. "
+             "Inequality projections: inputs V diag(w) V† with symbolic spectrum: output == vec(V max(w,0) V†), idempotent, fixes PSD inputs, variable-level agreement; variational "
+             "inequality against a superset of the PSD cone at 1 qubit (polynomial inequality, NRA). Bounded by configurations / frame library.",
+        design_ref="DESIGN.md 3/C04"),
+    "C05": dict(
+        technique="translation validation: symbolic execution of the real calc_proj_physical(_with_var) loops with the two projections as uninterpreted functions, z3 (QF_UFLRA + polynomial stopping test) equality with the textbook Dykstra recurrence per path",
+        category="translation_validation",
+        text="For max_iteration K (3 quick, 5 thorough; the API's own bound, so the loop is explored completely) and every path of the stopping test, the returned point, every "
+             "history entry (p,q,x,y,error_value) and the stopping decision equal the reference Dykstra recurrence over the same uninterpreted P_eq/P_ineq, for both projection "
+             "orders, both flags, object- and variable-level and all four types; object-level == variable-level == closures; an already-physical input (P_eq,P_ineq fix it) is returned "
+             "unchanged. Nearest-point-ness of the limit is the Boyle-Dykstra theorem given C04 and is NOT checked; convergence/accuracy are outside.",
+        design_ref="DESIGN.md 3/C05"),
+    "C06": dict(
+        technique="symbolic execution of the real compose_qoperations on symbolic states/gates against Kraus-operator and Born-rule reference formulas; z3 (LRA, polynomial identities under monomial relaxation, exact NRA for 1-parameter chains)",
+        category="other",
+        text="Pairwise semantics (gate-state, gate-gate, POVM-state Born rule, Heisenberg POVM, measurement process on a state incl. post-measurement states and zero-probability "
+             "outcomes, process-process, induced POVM, generate_mprocess modes 0/1/2) for a symbolic state/gate against a library of non-commuting, non-self-adjoint operations with "
+             "different outcome counts; all type-valid bracketings of chains of length 3-4 (thorough: 5) give the reference statistics in time-ordered row-major layout. Bounded: 1 qubit "
+             "(qutrit / 2 qubits for the linear pairs), probabilities >= 1e-3, library listed in checks/objlib.py.",
+        design_ref="DESIGN.md 3/C06"),
     "C16": dict(
         technique="symbolic execution of the real index / distribution code (symbolic probabilities, symbolic integer indices) + z3 (LRA/NRA with division lemmas); CrossHair on index_util with symbolic shapes",
         category="other",
